@@ -3,6 +3,11 @@ use super::Block;
 #[cfg(any(target_arch = "x86", target_arch = "x86_64"))]
 cpufeatures::new!(target_feature_pclmulqdq, "pclmulqdq");
 
+#[cfg(feature = "__verif")]
+pub(super) fn verif_scalar_clmul128(a: u128, b: u128) -> (u128, u128) {
+    scalar::clmul128(a, b)
+}
+
 impl Block {
     /// Carryless multiplication of two Blocks as polynomials over GF(2).
     ///
